@@ -88,6 +88,37 @@ theorem C10_strlen (c : Cfg) (s : FStr) (h : WF c s) (hn : (0 : Byte) ∉ s.buf.
   have := gen s.buf 0 s.len hn h0
   unfold cstrlen; simpa using this
 
+/-- `sprintf` and the result of the formatter.  `FixedString::sprintf` hands its buffer to `vsnprintf` and trusts nothing
+    but the returned `int`.  For EVERY value `vsnprintf` can return — the length of the text, a length beyond the
+    capacity or beyond the length type, or a NEGATIVE value (the formatter failed: `%ls` / `%lc` with a wide character
+    that has no multibyte form in the current locale, out of memory, `EOVERFLOW`) — and for everything it can have left
+    in the `L + 1` bytes it was given (`written`: any bytes, also a partial output without terminator), the string
+    is well-formed afterwards, and the last clause of the property holds too:
+    * a negative result leaves the EMPTY string (`length() = 0 = strlen( c_str())`), whatever partial output lies
+      behind the terminator;
+    * a result `≥ 0` leaves `length() = min( L, result)`, and `strlen( c_str()) = length()` whenever the formatter wrote
+      that many characters and none of them is a NUL (what `vsnprintf` does for a text without NUL).
+    (Seeded defect C10-4 dropped the test `result < 0`: `static_cast< size_t>( -1)` is `SIZE_MAX`, the length became
+    `L` with the formatter's NUL inside — second example below.)  The operation language contains the failing case
+    since then (`Op.sprintfW`, a case of `C10_safe_wf` / `C10_history`). -/
+theorem C10_sprintf_any_result (c : Cfg) (hc : CfgOK c) (s : FStr) (hs : WF c s) (written : Str)
+    (hw : written.length ≤ c.L + 1) (result : Int) :
+    ∃ s', sprintfV c s written result = .ok s' ∧ WF c s' ∧
+      (result < 0 → s'.len = 0 ∧ cstrlen s'.buf = .ok 0) ∧
+      (0 ≤ result → s'.len = min c.L result.toNat ∧
+        (min c.L result.toNat ≤ written.length → (0 : Byte) ∉ written.take (min c.L result.toNat) →
+          cstrlen s'.buf = .ok s'.len)) := by
+  obtain ⟨s', h, hwf⟩ := sprintfV_safe hc hs written hw result
+  obtain ⟨hlen, hcont⟩ := sprintfV_content hc hs written hw result h
+  refine ⟨s', h, hwf, fun hneg => ?_, fun hpos => ?_⟩
+  · rw [if_pos hneg] at hlen
+    refine ⟨hlen, ?_⟩
+    have := C10_strlen c s' hwf (by rw [hlen]; simp)
+    rw [hlen] at this; exact this
+  · rw [if_neg (by omega)] at hlen
+    refine ⟨hlen, fun hle hno => ?_⟩
+    exact C10_strlen c s' hwf (by rw [hcont (by rw [hlen]; exact hle), hlen]; exact hno)
+
 /-! ### the hypotheses are satisfiable -/
 
 /-- the configuration of `FixedString<255>` on a 64-bit platform (`uint8_t` length) satisfies `CfgOK` -/
@@ -125,5 +156,30 @@ example : ArgsOK ⟨8, 2 ^ 64, 256⟩ ⟨⟨[97, 98, 99, 0, 0, 0, 0, 0, 0], 3⟩
 /-- `C10_strlen` instantiated, and its hypothesis is needed: with a stored NUL `strlen` is shorter than `length()` -/
 example : cstrlen [97, 98, 0, 120] = .ok 2 := C10_strlen ⟨3, 2 ^ 64, 256⟩ ⟨[97, 98, 0, 120], 2⟩ (by decide) (by decide)
 example : WF ⟨3, 2 ^ 64, 256⟩ ⟨[97, 0, 99, 0], 3⟩ ∧ cstrlen [97, 0, 99, 0] = .ok 1 := ⟨by decide, rfl⟩
+
+/-- `C10_sprintf_any_result`, the error value: `FixedString< 8>` holding "abcdefgh" (full), then
+    `sprintf( "abc%lsdef", L"xy€z")` in the "C" locale — glibc leaves "abc" and a NUL and returns -1: the string is empty,
+    the partial output and the old content stay behind the terminator -/
+example : sprintfV ⟨8, 2 ^ 64, 256⟩ ⟨[97, 98, 99, 100, 101, 102, 103, 104, 0], 8⟩ [97, 98, 99, 0] (-1)
+    = .ok ⟨[0, 98, 99, 0, 101, 102, 103, 104, 0], 0⟩ := by rfl
+/-- the same call as an operation of the language (`"%s%ls%lu%s"` with "abc", L"xy€z", 7, "def"): the formatter fails
+    at `%ls` after "abc" -/
+example : fmtW (decimal 7) [97, 98, 99, 0] (.ls [120, 121, 0x20AC, 122]) [100, 101, 102, 0] = .failed [97, 98, 99] := by rfl
+example : step ⟨8, 2 ^ 64, 256⟩ ⟨9, 2 ^ 64, 256⟩
+    ⟨⟨[97, 98, 99, 100, 101, 102, 103, 104, 0], 8⟩, fresh ⟨8, 2 ^ 64, 256⟩, fresh ⟨9, 2 ^ 64, 256⟩⟩
+    (.sprintfW [97, 98, 99, 0] (.ls [120, 121, 0x20AC, 122]) 7 [100, 101, 102, 0])
+    = .ok (⟨⟨[0, 98, 99, 0, 101, 102, 103, 104, 0], 0⟩, fresh ⟨8, 2 ^ 64, 256⟩, fresh ⟨9, 2 ^ 64, 256⟩⟩, .unit) := by rfl
+/-- what seeded defect C10-4 (`mLength = std::min( L, static_cast< size_t>( result))`) left instead: length 8 with the
+    formatter's NUL at index 3 — `buffer[ length] = 0` holds, but `strlen` is 3, not 8, although no NUL was stored by
+    the caller: the hypothesis of `C10_strlen` fails, and so does the third clause of `C10_sprintf_any_result` -/
+example : WF ⟨8, 2 ^ 64, 256⟩ ⟨[97, 98, 99, 0, 101, 102, 103, 104, 0], 8⟩ ∧
+    cstrlen [97, 98, 99, 0, 101, 102, 103, 104, 0] = .ok 3 := ⟨by decide, rfl⟩
+/-- the same format with convertible wide characters succeeds: "abc" ++ "xy" ++ "7" ++ "def" = 9 characters, cut at 8 -/
+example : step ⟨8, 2 ^ 64, 256⟩ ⟨9, 2 ^ 64, 256⟩ (World.init ⟨8, 2 ^ 64, 256⟩ ⟨9, 2 ^ 64, 256⟩)
+    (.sprintfW [97, 98, 99, 0] (.ls [120, 121]) 7 [100, 101, 102, 0])
+    = .ok (⟨⟨[97, 98, 99, 120, 121, 55, 100, 101, 0], 8⟩, fresh ⟨8, 2 ^ 64, 256⟩, fresh ⟨9, 2 ^ 64, 256⟩⟩, .unit) := by rfl
+/-- `%.*ls` with a precision that ends before the unconvertible character succeeds, one more fails -/
+example : (WArg.lsp 2 [120, 121, 0x20AC, 122]).conv = some [120, 121] ∧ (WArg.lsp 3 [120, 121, 0x20AC, 122]).conv = none :=
+  ⟨rfl, rfl⟩
 
 end CelmaVerif.Props.C10
